@@ -29,6 +29,21 @@ def check(run):
     rtexts = {e: [] for e in ECOS}
     for j in rjobs: rtexts[j["eco"]].append(j["text"])
     for v in shvecs: rtexts[v["eco"]].append(v["text"])
+    # long but valid versions: the last letter run (else the last digit run) of a member stretched so that the text is
+    # 254 / 256 / 1024 / 4096 bytes long - lengths at which a size limit applied before the trim would start to bite
+    import re
+    longc = {}
+    for e in ECOS:
+        c = []
+        for t in rnd.sample(acc[e], min(len(acc[e]), 8)):
+            runs = list(re.finditer(r"[A-Za-z]+", t)) or list(re.finditer(r"[0-9]+", t))
+            if not runs: continue
+            m = runs[-1]
+            for L in (254, 256, 1024, 4096):
+                if L > len(t):
+                    c.append(t[:m.end()] + t[m.end() - 1] * (L - len(t)) + t[m.end():])
+        longc[e] = c
+    longv = vlib.accept_filter(run, exe, longc, name="long")
     jobs = []
     nv, nr, npad = (60, 40, 12) if quick else (1200, 600, 60)
     for e in ECOS:
@@ -38,6 +53,8 @@ def check(run):
         texts = vlib.stratified(acc[e], nv, rnd) + rnd.sample(rej, min(len(rej), nv // 6))
         for t in texts:
             jobs.append({"k": "roundtrip", "eco": e, "kind": "v", "text": t, "witness": wit, "pads": rnd.sample(nonempty, npad)})
+        for t in longv[e][:8 if quick else 32]:
+            jobs.append({"k": "roundtrip", "eco": e, "kind": "v", "text": t, "witness": wit[:4], "pads": rnd.sample(nonempty, npad)})
         rs = rtexts[e]
         extra = ["1.0 ||", ">=", "[1.0", "~>"]
         if e == "pypi":   # the identity operator compares text: it must see the trimmed text
